@@ -4,6 +4,10 @@ from core import (universe, mk_desc, show_sig, show_call, tok_sig, tok_sigs, par
 from algebra import (Merge, MergeNested, SortApply, run_cases, ask, proj_shape, proj_full,
                      proj_params, proj_prov, case_from_data)
 from props.c01 import mutate
+import functools
+import inspect
+from core import PS, S, name_of, describe_sig, parse_result, run_impl
+from algebra import _build
 
 LEVEL = 'proof'
 
@@ -86,6 +90,204 @@ def strip_star_names(r):
     return ('ok', tuple((p[0] if p[1] not in ('VP', 'VK') else 0,) + tuple(p[1:]) for p in r[1]['params']))
 
 
+# ---------------------------------------------------------------- same object repeated (fold law)
+class MergeShared(Merge):
+    """merge over a tuple in which the SAME signature object stands at several positions:
+    pattern[j] = index (into ds) of the object used as argument j.  The model is functional, so
+    its answer is that of the equal descriptions; flat and nested must agree in parameters and
+    provenance (source lists compared as lists)."""
+    def __init__(self, ds, pattern, nested=False):
+        Merge.__init__(self, [ds[k] for k in pattern])
+        self.base = ds
+        self.pattern = list(pattern)
+        self.nested = nested
+
+    def request(self):
+        return ('mergen ' if self.nested else 'merge ') + tok_sigs(self.ds)
+
+    def thunk(self):
+        def th():
+            objs = {}
+            for k in self.pattern:
+                if k not in objs:
+                    objs[k] = _build(self.base[k])
+            args = [objs[k] for k in self.pattern]
+            if self.nested:
+                return functools.reduce(PS.merge, args)
+            return PS.merge(*args)
+        return th
+
+    def show(self):
+        return '%s(%s) where %s' % (
+            'nested-merge' if self.nested else 'merge', ', '.join('x%d' % k for k in self.pattern),
+            '; '.join('x%d = %s (one object)' % (k, show_sig(d)) for k, d in enumerate(self.base)
+                      if k in self.pattern))
+
+    def data(self):
+        return {'op': 'merge-shared', 'sigs': self.base, 'pattern': self.pattern}
+
+
+SHARED_PATTERNS = [(0, 1, 1), (0, 0, 0), (0, 0, 1), (0, 1, 0), (0, 1, 1, 1), (0, 1, 1, 0), (0, 0, 1, 1),
+                   (0, 1, 2, 2), (0, 1, 1, 2)]
+
+
+def fold_shared_check(base, pattern):
+    """-> (description of the violation or None, flat impl answer, model answer)"""
+    flat = MergeShared(base, pattern)
+    nest = MergeShared(base, pattern, nested=True)
+    i, i2 = flat.impl(), nest.impl()
+    a, bb = proj_full(i), proj_full(i2)
+    if a != bb:
+        return ('%s = %s but merge(merge(...), last) step by step = %s (the same object at the '
+                'repeated positions)' % (flat.show(), a, bb)), i
+    return None, i
+
+
+# ---------------------------------------------------------------- real functions, postponed annotations
+REAL_HEADER = ('from typing import List, Dict, Optional, Tuple\n'
+               'class Local(object):\n    pass\n')
+ANN_POOL = ['int', 'str', 'List[int]', 'Dict[str, int]', 'Optional[str]', 'Tuple[int, ...]', 'Local',
+            "'int'", 'None']
+DEF_POOL = ['None', '1', "'x'", '2.0', '()']
+
+
+def real_source(rng, ps, postponed, ret):
+    """Source of a module defining f with the parameter list ps (kinds, defaults present or not),
+    parameter annotations drawn from ANN_POOL and the return annotation ret (None = absent)."""
+    parts, prev = [], None
+    for nm, k, de, an, ua in ps:
+        if prev == 'PO' and k != 'PO':
+            parts.append('/')
+        if k == 'KO' and prev not in ('VP', 'KO'):
+            parts.append('*')
+        t = {'VP': '*', 'VK': '**'}.get(k, '') + name_of(nm)
+        if rng.random() < 0.4:
+            t += ': ' + rng.choice(ANN_POOL)
+            if de is not None:
+                t += ' = ' + rng.choice(DEF_POOL)
+        elif de is not None:
+            t += '=' + rng.choice(DEF_POOL)
+        parts.append(t)
+        prev = k
+    if prev == 'PO':
+        parts.append('/')
+    src = ('from __future__ import annotations\n' if postponed else '') + REAL_HEADER
+    src += 'def f(%s)%s:\n    return None\n' % (', '.join(parts), '' if ret is None else ' -> ' + ret)
+    src += 'def bare(*args, **kwargs):\n    return None\n'
+    return src
+
+
+def real_module(src):
+    ns = {'__name__': 'c09_real'}
+    exec(compile(src, '<c09-real>', 'exec', dont_inherit=True), ns)
+    return ns
+
+
+def canon_real(sig, star_names=True):
+    """Independent canonical form of an upgraded signature: raw and EVALUATED annotations of
+    every parameter and of the return (objects compared with ==), defaults, kinds, names."""
+    ps = []
+    for p in sig.parameters.values():
+        nm = p.name if (star_names or p.kind not in (p.VAR_POSITIONAL, p.VAR_KEYWORD)) else '*'
+        ps.append((nm, int(p.kind), repr(p.default), repr(p.annotation),
+                   p.upgraded_annotation.source_value()))
+    return (tuple(ps), repr(sig.return_annotation), sig.upgraded_return_annotation.source_value())
+
+
+def canon_sources(sig):
+    return ({k: [id(f) for f in v] for k, v in sig.sources.items() if k != '+depths'},
+            {id(f): d for f, d in sig.sources.get('+depths', {}).items()})
+
+
+REAL_LAWS = ['merge(s) == s', 'merge(s, s) == s', 'merge(s, s, s) == s', 'merge(s, s2) == s',
+             'merge(s, bare) == s', 'merge(bare, s) == s up to star names',
+             'apply_params(s, *sort_params(s)) == s', 'apply_params(s, *sort_params(s, sources=True)) == s']
+RETRIEVERS = ['signatures.signature', 'sigtools.signature']
+
+
+def _retrieve(how, f):
+    if how == 'signatures.signature':
+        return PS.signature(f)
+    import sigtools
+    return sigtools.signature(f)
+
+
+def real_law(src, how, label):
+    """Decide one law on the real function f of module src; -> violation text or None."""
+    import warnings
+    ns = real_module(src)
+    f, bare = ns['f'], ns['bare']
+    with warnings.catch_warnings():
+        warnings.simplefilter('ignore')
+        s = _retrieve(how, f)
+        want = canon_real(s)
+        want_src = canon_sources(s)
+        raw = f.__annotations__.get('return', inspect.Signature.empty)
+        want_obj = eval(raw, ns) if (src.startswith('from __future__') and isinstance(raw, str)) else raw
+        try:
+            if label == 'merge(s) == s':
+                r = PS.merge(s)
+            elif label == 'merge(s, s) == s':
+                r = PS.merge(s, s)
+            elif label == 'merge(s, s, s) == s':
+                r = PS.merge(s, s, s)
+            elif label == 'merge(s, s2) == s':
+                r = PS.merge(s, _retrieve(how, f))
+            elif label == 'merge(s, bare) == s':
+                r = PS.merge(s, _retrieve(how, bare))
+            elif label == 'merge(bare, s) == s up to star names':
+                r = PS.merge(_retrieve(how, bare), s)
+            elif label == 'apply_params(s, *sort_params(s)) == s':
+                r = PS.apply_params(s, *PS.sort_params(s))
+            else:
+                r = PS.apply_params(s, *PS.sort_params(s, sources=True))
+        except Exception as e:  # noqa: BLE001
+            return '%s raised %s: %s' % (label, type(e).__name__, e)
+        if canon_real(s) != want or canon_sources(s) != want_src:
+            return '%s modified its input s' % label
+        if 'up to star names' in label:
+            # the return annotation is the left operand's (bare has none): parameters only
+            if canon_real(r, False)[0] != canon_real(s, False)[0]:
+                return '%s fails: got %s, s = %s' % (label, r, s)
+            return None
+        got = canon_real(r)
+        if got != want:
+            return ('%s fails: got %s with annotations (raw, evaluated) %r, s = %s has %r'
+                    % (label, r, _anns(got), s, _anns(want)))
+        if not (r == s) or (r != s):
+            return '%s fails: the result %s does not compare equal to s = %s' % (label, r, s)
+        ev = r.evaluated().return_annotation
+        if want_obj is not inspect.Signature.empty and not (ev is want_obj or ev == want_obj):
+            return ('%s: .evaluated().return_annotation of the result is %r, the function\'s return '
+                    'annotation evaluates to %r' % (label, ev, want_obj))
+        if label in ('merge(s) == s', 'apply_params(s, *sort_params(s)) == s',
+                     'apply_params(s, *sort_params(s, sources=True)) == s') and canon_sources(r) != want_src:
+            return '%s fails in provenance: %r vs %r' % (label, r.sources, s.sources)
+    return None
+
+
+def _anns(c):
+    return [(p[0], p[3], p[4]) for p in c[0] if p[3] != repr(inspect.Parameter.empty)] + [('return', c[1], c[2])]
+
+
+def real_model_corr(rep, src, how):
+    """Correspondence on the real signature: the model's merge / sort-apply of the DESCRIPTION of
+    s against the description of the implementation's result (upgraded return annotation included)."""
+    import warnings
+    ns = real_module(src)
+    with warnings.catch_warnings():
+        warnings.simplefilter('ignore')
+        s = _retrieve(how, ns['f'])
+        d = describe_sig(s)
+        d.pop('has_depths', None)
+        out = []
+        for req, th in (('merge ' + tok_sigs([d]), lambda: PS.merge(s)),
+                        ('merge ' + tok_sigs([d, d]), lambda: PS.merge(s, s)),
+                        ('sortapply ' + tok_sig(d), lambda: PS.apply_params(s, *PS.sort_params(s)))):
+            out.append((req, run_impl(th)))
+    return out
+
+
 def run(ctx, rep):
     pairs, triples3, sigs = gen(ctx)
     rep.rule = ('name-aligned role-consistent pairs: exhaustive U(2)^2 filtered + role-preserving variations of random 5-name signatures; '
@@ -124,6 +326,29 @@ def run(ctx, rep):
         if a != bb:
             rep.violation('C09:fold', '%s = %s but nested = %s' % (c.show(), a, bb), dict(c.data(), kind='fold'))
         rep.distinct.add(c.request())
+
+    # fold law with the very same signature OBJECT at several (consecutive or not) positions
+    rng = ctx.rng('shared')
+    chosen = rng.sample(cs3, min(len(cs3), 1200 if ctx.quick else 15000))
+    U2 = universe(2, ['a', 'b'])
+    chosen += [[mk_desc(rng.choice(U2), 100 + k) for k in range(3)] for _ in range(300 if ctx.quick else 3000)]
+    shared = []
+    for ds in chosen:
+        for pat in rng.sample(SHARED_PATTERNS, 3):
+            shared.append(MergeShared(ds, pat))
+    rcs = ask(['rolecons ' + tok_sigs(c.ds) for c in shared])
+    shared = [c for c, r in zip(shared, rcs) if r == 'T']
+    nshared = 0
+    for c, m, i in run_cases(shared):
+        nshared += 1
+        if proj_full(m) != proj_full(i):
+            rep.corr_break('merge full result, same object repeated', c.show(), str(proj_full(m)), str(proj_full(i)))
+        what, _ = fold_shared_check(c.base, c.pattern)
+        if what:
+            rep.violation('C09:fold', what, dict(c.data(), kind='fold-shared'))
+        rep.distinct.add(('shared', tuple(c.pattern), c.request()))
+    rep.coverage['fold_same_object_tuples'] = nshared
+    rep.evaluations += nshared
 
     # exactness through the n-ary fold (C09_merge_exact_n_ok): name-aligned role-consistent triples
     al3 = ask(['aligned ' + tok_sigs(c.ds) for c, m, i in flat])
@@ -169,6 +394,36 @@ def run(ctx, rep):
             if not pred(i):
                 rep.violation('C09:law', '%s fails for s=%s: got %s' % (label, show_sig(d), show_sig(i[1]) if i[0] == 'ok' else i[1]),
                               dict(c.data(), kind='law', label=label, expect=d))
+
+    # the same laws on REAL functions, most of them compiled with postponed annotations (PEP 563),
+    # with and without a return annotation: equality includes the upgraded return annotation
+    rng = ctx.rng('real')
+    nreal, npost, corr = 0, 0, []
+    pool = sigs[:]
+    for _ in range(160 if ctx.quick else 1500):
+        ps = rng.choice(pool) if rng.random() < 0.5 else random_sig(rng, 'abcde', 5)
+        postponed = rng.random() < 0.75
+        ret = rng.choice(ANN_POOL) if rng.random() < 0.85 else None
+        src = real_source(rng, ps, postponed, ret)
+        npost += bool(postponed and ret is not None)
+        for how in RETRIEVERS:
+            for label in REAL_LAWS:
+                nreal += 1
+                what = real_law(src, how, label)
+                if what:
+                    rep.violation('C09:law', '%s; s retrieved with %s from `%s`%s' % (
+                        what, how, [ln for ln in src.split('\n') if ln.startswith('def f(')][0],
+                        ' in a module with `from __future__ import annotations`' if postponed else ''),
+                                  {'kind': 'real-law', 'src': src, 'how': how, 'label': label})
+            corr.extend((src, how, req, i) for req, i in real_model_corr(rep, src, how))
+    for (src, how, req, i), line in zip(corr, ask([c[2] for c in corr])):
+        m = parse_result(line)
+        if proj_params(m) != proj_params(i):
+            rep.corr_break('laws on a real function (%s)' % req.split()[0], {'src': src, 'how': how},
+                           str(proj_params(m)), str(proj_params(i)))
+    rep.coverage['real_function_law_instances'] = nreal
+    rep.coverage['real_functions_with_postponed_return_annotation'] = npost
+    rep.evaluations += nreal
     rep.coverage['unary_law_instances'] = nun
     rep.evaluations += nun
     for c, m, i in tr[:2] + flat[:2]:
@@ -177,6 +432,12 @@ def run(ctx, rep):
 
 def replay(ctx, data):
     r = data['replay']
+    if r['kind'] == 'fold-shared':
+        from algebra import _fix_desc
+        what, _ = fold_shared_check([_fix_desc(x) for x in r['sigs']], r['pattern'])
+        return what
+    if r['kind'] == 'real-law':
+        return real_law(r['src'], r['how'], r['label'])
     c = case_from_data(r)
     if r['kind'] == 'exact':
         res, _ = decide_exact(run_cases([c]))
